@@ -156,12 +156,12 @@ def key0 : Val → Str
   | .dict _ _ => []
   | v => jsonVal v
 
-theorem keyOf_noOpts {cfg : Cfg} (h : NoOpts cfg) (p : Path) (v : Val) : keyOf cfg p v = .ok (key0 v) := by
-  cases v <;> simp [keyOf, key0, h.ck, PatArg.pats, transformAt_noOpts h]
+theorem keyOf_noOpts {cfg : Cfg} (h : NoOpts cfg) (p : Path) (i : Nat) (v : Val) : keyOf cfg p i v = .ok (key0 v) := by
+  cases v <;> simp [keyOf, key0, h.ck, PatArg.pats, transformAt_noOpts h, recordFields, fieldsKey]
 
-theorem keysOf_noOpts {cfg : Cfg} (h : NoOpts cfg) (p : Path) : ∀ xs : List Val, keysOf cfg p xs = .ok (xs.map key0)
-  | [] => rfl
-  | x :: xs => by simp [keysOf, keyOf_noOpts h, keysOf_noOpts h p xs]
+theorem keysOf_noOpts {cfg : Cfg} (h : NoOpts cfg) (p : Path) : ∀ (i : Nat) (xs : List Val), keysOf cfg p i xs = .ok (xs.map key0)
+  | _, [] => rfl
+  | i, x :: xs => by simp [keysOf, keyOf_noOpts h, keysOf_noOpts h p (i + 1) xs]
 
 theorem key0_rec {v : Val} (h : isRec v = true) : key0 v = [] := by
   cases v <;> simp_all [isRec, key0]
